@@ -173,7 +173,7 @@ func jsonEqual(body []byte, want any) error {
 func propHelpers(t *rapid.T) {
 	ev.Case()
 	status := rapid.OneOf(rapid.SampledFrom([]int{200, 201, 202, 206, 400, 404, 418, 500, 503, 599}), rapid.IntRange(200, 599)).Draw(t, "status")
-	helper := rapid.SampledFrom([]string{"Text", "HTML", "HTMLString", "JSON", "JSONBytes", "JSONP", "XML", "Blob", "Stream", "NoContent", "Redirect", "HTTPError", "JSON-unencodable", "XML-unencodable", "JSONP-unencodable"}).Draw(t, "helper")
+	helper := rapid.SampledFrom([]string{"Text", "HTML", "HTMLString", "JSON", "JSONBytes", "JSONP", "XML", "Blob", "Stream", "NoContent", "Redirect", "HTTPError", "JSON-unencodable", "XML-unencodable", "JSONP-unencodable", "ShouldRender", "ShouldRender", "Respond"}).Draw(t, "helper")
 	ev.Eval()
 	ev.Class("helper:" + helper)
 	var res result
@@ -352,6 +352,82 @@ func propHelpers(t *rapid.T) {
 			}
 			return nil
 		}
+	case "ShouldRender", "Respond":
+		// the generic entry points: status given, a renderer of pkg/render, the encoding failure as returned error
+		// (ShouldRender) or in Context.Errors (Respond) - whatever unrelated error the context already holds
+		it := genItem(t)
+		var v any = it
+		bad := rapid.IntRange(0, 2).Draw(t, "unencodable") == 0
+		kind := rapid.SampledFrom([]string{"json", "xml", "jsonp"}).Draw(t, "renderer")
+		if bad {
+			v, _ = genUnencodable(t, kind == "xml")
+		}
+		earlier := rapid.Bool().Draw(t, "earlierError")
+		var rd render.Renderer = render.JSONRenderer{}
+		wantCT = ctJSON
+		switch kind {
+		case "xml":
+			rd, wantCT = render.XMLRenderer{}, ctXML
+		case "jsonp":
+			rd, wantCT = render.JSONPRenderer{Callback: "cb"}, ctJSONP
+		}
+		var returned error
+		nAfter := 0
+		res = run(nil, "", func(c *rux.Context) error {
+			if earlier {
+				c.AddError(errors.New("an unrelated earlier error"))
+			}
+			if helper == "ShouldRender" {
+				returned = c.ShouldRender(status, v, rd)
+			} else {
+				c.Respond(status, v, rd)
+			}
+			nAfter = len(c.Errors)
+			c.Errors = c.Errors[:0]
+			return nil
+		})
+		base := 0
+		if earlier {
+			base = 1
+		}
+		ctxs := fmt.Sprintf("%s(%s) unencodable=%v earlierError=%v: returned=%v errors=%d status=%d body=%q", helper, kind, bad, earlier, returned, nAfter, res.rec.Code, res.rec.Body.String())
+		if res.pv != nil {
+			t.Fatalf("panic %v: %s", res.pv, ctxs)
+		}
+		switch {
+		case helper == "ShouldRender" && bad && returned == nil:
+			t.Fatalf("encoding failure not returned: %s", ctxs)
+		case helper == "ShouldRender" && !bad && returned != nil:
+			t.Fatalf("successful render returns an error: %s", ctxs)
+		case helper == "ShouldRender" && bad && earlier && returned.Error() == "an unrelated earlier error":
+			t.Fatalf("the returned error is not the encoding failure: %s", ctxs)
+		case helper == "Respond" && bad && nAfter != base+1:
+			t.Fatalf("encoding failure not reported through Context.Errors: %s", ctxs)
+		case helper == "Respond" && !bad && nAfter != base:
+			t.Fatalf("successful render adds an error: %s", ctxs)
+		}
+		if bad {
+			ev.NonTrivial(ctxs, func() string { return ctxs })
+			return
+		}
+		checkBody = func(b []byte) error {
+			switch kind {
+			case "json":
+				return jsonEqual(b, v)
+			case "jsonp":
+				sb := string(b)
+				if !strings.HasPrefix(sb, "cb(") || !strings.HasSuffix(sb, ");") {
+					return fmt.Errorf("not wrapped as cb(...);")
+				}
+				return jsonEqual([]byte(sb[3:len(sb)-2]), v)
+			}
+			var got Item
+			if err := xml.Unmarshal(b, &got); err != nil || !reflect.DeepEqual(normItem(got), normItem(it)) {
+				return fmt.Errorf("decodes to %+v (%v), given %+v", normItem(got), err, normItem(it))
+			}
+			return nil
+		}
+		escaping = earlier
 	default: // unencodable values: reported through the error list, never a panic
 		forXML := helper == "XML-unencodable"
 		v, kind := genUnencodable(t, forXML)
